@@ -67,7 +67,12 @@ void run(const std::string & tn)
   });
 
   // pairs over the reduced alphabets
-  auto Tr = tangents<R, S>(AlphaOpts::reduced());
+  // the bracket is bilinear: it is judged relative to |a||b| (no floor at 1), on an alphabet that also contains tangents whose
+  // every coefficient is tiny but non-zero (1e-13) and huge-times-tiny pairs
+  AlphaOpts bo = AlphaOpts::reduced();
+  bo.thetas.push_back(1e-13);
+  bo.tmags.push_back(1e-13);
+  auto Tr = tangents<R, S>(bo);
   const uint64_t n = Tr.size();
   mc::explore("C03/bracket/" + tn, n * n, [&](mc::Case & c) {
     const uint64_t i = c.idx / n, j = c.idx % n;
@@ -86,7 +91,8 @@ void run(const std::string & tn)
         ma = std::max(ma, std::fabs(al[k]));
         mb = std::max(mb, std::fabs(bl[k]));
       }
-      scale = std::max((L)1, ma * mb);
+      scale = ma * mb;
+      if (scale == 0) scale = 1;  // one argument is zero: the bracket must be exactly zero
     }
     const auto lb  = G::lie_bracket(a, b);
     const auto lb2 = (G::ad(a) * b).eval();
